@@ -524,7 +524,27 @@ func (d *c17Daemon) step(id string, r *rand.Rand) bool {
 		cls := ""
 		var resp *mgmt.ControlResponseVal
 		need4xx := true
-		switch r.Intn(11) {
+		switch r.Intn(13) {
+		case 11, 12:
+			// one invalid field next to valid ones: the command as a whole must be refused and
+			// nothing (not even the valid MTU) may be applied
+			tgt := d.targetFace(r)
+			before = c17Snapshot()
+			a := &mgmt.ControlArgs{FaceId: u64p(tgt.id), Mtu: u64p(uint64(1000 + r.Intn(7000)))}
+			switch r.Intn(3) {
+			case 0:
+				a.Flags = u64p(uint64(r.Intn(4)))
+				cls = "update-flags-without-mask-plus-valid-mtu"
+			case 1:
+				a.Mask = u64p(uint64(1 + r.Intn(3)))
+				cls = "update-mask-without-flags-plus-valid-mtu"
+			default:
+				a.FacePersistency = u64p(uint64(7 + r.Intn(90)))
+				cls = "update-unknown-persistency-plus-valid-mtu"
+			}
+			cp := c17Params(a)
+			d.log = append(d.log, fmt.Sprintf("%s: faces/update face=%d %s", id, tgt.id, cls))
+			resp = d.command(requester, "/localhost/nfd", "faces", "update", &cp, 15*time.Second)
 		case 0:
 			cls = "no-parameters-component"
 			mv := [][2]string{{"rib", "register"}, {"rib", "unregister"}, {"fib", "add-nexthop"}, {"fib", "remove-nexthop"}, {"strategy-choice", "set"}, {"strategy-choice", "unset"}, {"cs", "config"}, {"faces", "update"}, {"faces", "destroy"}}[r.Intn(9)]
